@@ -52,7 +52,12 @@ def s7(chk: Check, proj: Project, w, m) -> None:
     f = lm.func("mark_protected_tags")
     st = [x for x in stmts(f) if isinstance(x, ast.Assign) and any(isinstance(t, ast.Attribute) and t.attr == "_protected_tags" for t in x.targets)]
     if len(st) != 1:
-        chk.undecided("S7", "library:mark_protected_tags:private-copy", lm.loc(f), f"{len(st)} stores of _protected_tags")
+        idk = [x for x in ast.walk(f) if isinstance(x, ast.Subscript) and isinstance(x.ctx, ast.Store) and isinstance(x.slice, ast.Call) and norm(x.slice.func) == "id"]
+        if not st and idk:
+            chk.violated("S7", "library:mark_protected_tags:private-copy", lm.loc(idk[0]),
+                         f"`{short(enclosing_stmt(idk[0]))}` keeps the protected list in a table keyed by `id(...)` of the Library, which neither keeps the Library alive nor is cleaned when it dies: CPython re-uses the address, so a NEW, never-marked Library allocated where a marked one used to be refuses 'slot' / 'fill' with TagProtectedError (and a marked one can lose its protection the same way)")
+        else:
+            chk.undecided("S7", "library:mark_protected_tags:private-copy", lm.loc(f), f"{len(st)} stores of _protected_tags")
     else:
         v = st[0].value
         fresh = (isinstance(v, (ast.List, ast.Tuple, ast.Set)) and all(isinstance(e, (ast.Starred, ast.Constant)) for e in v.elts)) or (isinstance(v, ast.Call) and (norm(v.func) in ("list", "tuple", "set", "frozenset", "sorted") or (isinstance(v.func, ast.Attribute) and v.func.attr == "copy")))
